@@ -348,6 +348,7 @@ def run_harness(unit, h, src_c, workdir, label_by_line, mode='proof', solver=Non
         # the bounded stand-in looks for a concrete counterexample to the function's own ensures
         # clauses; it runs with the memory-safety checks only (stated in the evidence)
         cb = ['cbmc', base + '.b.gb'] + BOUNDED_CHECKS + ['--unwind', str(h.get('unwind', 6)), '--unwinding-assertions']
+        cb += list(h.get('bounded_cbmc_args', []))
         if h.get('bounded_unwindset'):
             # per-function recursion bounds (a recursion that the precondition makes unreachable would
             # otherwise be unrolled --unwind times at every call site)
